@@ -394,6 +394,12 @@ func runC19(c *core.Ctx) {
 		if lenS != nil {
 			l2 := substParam(lenS, ops["Length"].Params[1].Name(), &ir.Term{Op: "param", Aux: ops["IsEmpty"].Params[1].Name()})
 			isLenZero := func(t *ir.Term) bool {
+				// L < 1 and L <= 0 say the same as L == 0 for a length (never negative: D-iii)
+				if t.Op == "bin" && len(t.Args) == 2 {
+					if k, isK := t.Args[1].IntConst(); isK && linEqual(t.Args[0], l2) && (t.Aux == "<" && k == 1 || t.Aux == "<=" && k == 0) {
+						return true
+					}
+				}
 				if t.Op != "bin" || t.Aux != "==" || len(t.Args) != 2 {
 					return false
 				}
